@@ -49,6 +49,11 @@ pub fn node_cases(g: &mut G) {
                             .collect();
                         let fout = if fin { [0u64, 5, 1 << 40, u64::MAX][outs + (n % 2)] } else { 0 };
                         for v in 1..=3u64 {
+                            // the shipped writer always emits the index; a version-1
+                            // reader is only paired with it below the threshold
+                            if v == 1 && n > 32 {
+                                continue;
+                            }
                             g.emit(node_line(v, addr - 1, addr, fin, fout, &trans));
                         }
                     }
@@ -234,7 +239,7 @@ pub fn c12(g: &mut G) {
 }
 
 pub fn c13(g: &mut G) {
-    let (n1, n2) = if g.thorough { (300_000, 3_000_000) } else { (100_000, 1_000_000) };
+    let (n1, n2) = if g.thorough { (3_000_000, 30_000_000) } else { (1_000_000, 3_000_000) };
     g.emit(format!("!membuild set {} {}", n1, n2));
     g.emit(format!("!membuild map {} {}", n1, n2));
     // model footprint vs hook footprint on small inputs
